@@ -9,17 +9,17 @@ Variable fs : fsys.
 Inductive sres := SFile (p : zs) | SNotFound | SIOError (p : zs).
 
 (* a candidate module file: present, absent, or the loader fails on it *)
-Definition probe (p : path) : option sres :=
+Definition probe (p : path) : sres :=
   match fs_get fs (render p) with
-  | None => None
-  | Some FErr => Some (SIOError (render p))
-  | Some _ => Some (SFile (render p))
+  | None => SNotFound
+  | Some FErr => SIOError (render p)
+  | Some _ => SFile (render p)
   end.
 
 Fixpoint first_hit (cs : list path) : sres :=
   match cs with
   | [] => SNotFound
-  | c :: r => match probe c with Some x => x | None => first_hit r end
+  | c :: r => match probe c with SNotFound => first_hit r | x => x end
   end.
 
 (* LOAD_AS_FILE(X): X, X.js, X.json *)
@@ -33,16 +33,18 @@ Definition LOAD_AS_DIRECTORY (x : path) : list path :=
   | _ => LOAD_INDEX x
   end.
 
-(* NODE_MODULES_PATHS(START): for I from the last part down to the root, skipping parts equal to "node_modules",
-   DIR = PARTS[0..I] + node_modules ; nearest first *)
-Definition prefixes_desc {A} (l : list A) : list (list A) :=     (* [l; l without its last part; ...; []] *)
-  map (fun n => firstn n l) (rev (seq 0 (S (length l)))).
+(* NODE_MODULES_PATHS(START): let PARTS = path split(START); for I = count of PARTS - 1 down to 0:
+   if PARTS[I] = "node_modules" continue; DIR = path join(PARTS[0 .. I] + "node_modules"); append DIR — nearest first.
+   The parts are kept in reverse (PARTS[I] first), so the loop over I is structural recursion. *)
+Fixpoint nm_paths_rev (rparts : list zs) : list (list zs) :=
+  (if zs_eqb (hd [] rparts) node_modules then [] else [node_modules :: rparts]) ++
+  match rparts with
+  | [] => []
+  | _ :: r => nm_paths_rev r
+  end.
 
 Definition NODE_MODULES_PATHS (start : path) : list path :=
-  flat_map (fun pre =>
-              if zs_eqb (last pre []) node_modules then []
-              else [{| rooted := rooted start; segs := pre ++ [node_modules] |}])
-           (prefixes_desc (segs start)).
+  map (fun rs => {| rooted := rooted start; segs := rev rs |}) (nm_paths_rev (rev (segs start))).
 
 (* LOAD_NODE_MODULES(X, START) *)
 Definition LOAD_NODE_MODULES (x : zs) (start : path) : list path :=
@@ -62,7 +64,7 @@ Fixpoint select (fs : fsys) (cs : list cand) : sres :=
   match cs with
   | [] => SNotFound
   | CPkg _ :: r => select fs r
-  | CMod p :: r => match probe fs p with Some x => x | None => select fs r end
+  | CMod p :: r => match probe fs p with SNotFound => select fs r | x => x end
   end.
 
 Definition model_resolve (fs : fsys) (y : path) (x : zs) : sres :=
